@@ -26,10 +26,12 @@ def scenarios(tier, seed):
                     if not thorough and (len(scs) + seed) % 2 and kind in (1, 2):
                         pass
                     sc = gen.with_tol(gen.base(m, a, b, abs(span) / 4.0, dense=dense))
+                    # a callback looks the trajectory up while the integration is in progress (after the 1st / 3rd step)
+                    probe = [{"kind": "hook", "name": "c19probe", "at": 1 + 2 * (len(scs) % 2), "tag": "cb", "dense": dense}]
                     if kind == 0:
-                        sc["ops"] = [{"op": "integrate"}]
+                        sc["ops"] = [{"op": "integrate", "cbs": probe}]
                     elif kind == 1:       # non-uniform grid: a callback assigns dyadic steps
-                        sc["ops"] = [{"op": "integrate", "cbs": [{"kind": "setdt", "vals": [abs(span) / 8.0, abs(span) / 16.0, abs(span) / 4.0, abs(span) / 32.0]}]}]
+                        sc["ops"] = [{"op": "integrate", "cbs": [{"kind": "setdt", "vals": [abs(span) / 8.0, abs(span) / 16.0, abs(span) / 4.0, abs(span) / 32.0]}] + probe}]
                     elif kind == 2:       # continuation
                         sc["ops"] = [{"op": "integrate", "t": a + span * 0.375}, {"op": "query"}, {"op": "integrate"}]
                     else:                 # a single step
@@ -39,9 +41,30 @@ def scenarios(tier, seed):
     return gen.number(scs, "C19_")
 
 
+_PROBED = {}
+
+
+def _probe(system, spec):
+    """Callback hook: the same observations on the system while an integration is in progress (storage pre-allocated beyond the rows)."""
+    _PROBED[spec["tag"]] = _observe_system(system, bool(spec.get("dense")), with_slices=False)
+
+
+scen.HOOKS["c19probe"] = _probe
+
+
 def observe(sc):
+    _PROBED.clear()
     r = scen.run_plain(sc)
-    system = r["system"]
+    out = _observe_system(r["system"], bool(sc.get("dense")))
+    out.update({"id": sc["id"], "ok": r["ok"]})
+    res = [out]
+    for tag, o in sorted(_PROBED.items()):
+        o.update({"id": sc["id"] + "@" + tag, "ok": True})
+        res.append(o)
+    return res
+
+
+def _observe_system(system, dense, with_slices=True):
     t = np.array(system.t, copy=True)
     y = np.array(system.y, copy=True)
     n = len(t)
@@ -79,7 +102,6 @@ def observe(sc):
     lo, hi = min(t), max(t)
     qs += [lo - 0.3, hi + 0.7, lo - 1e-9, hi + 1e-9]
     times = []
-    dense = bool(sc.get("dense"))
     for q in qs:
         q = np.asarray(q, dtype=dt)
         try:
@@ -104,6 +126,8 @@ def observe(sc):
             for rec in times:
                 rec["denseExact"] = False
     slices = []
+    if not with_slices:
+        return {"n": n, "len": len(system), "ints": ints, "iter": it, "times": times, "slices": [{"whole": True}]}
     try:
         sl = system[t[0]:t[-1]]
         slices.append({"whole": bool(len(sl.t) == n and np.array_equal(sl.t, t) and np.array_equal(sl.y, y))})
@@ -111,7 +135,7 @@ def observe(sc):
         slices.append({"whole": bool(len(sl2.t) == n and np.array_equal(sl2.t, t))})
     except Exception:     # noqa
         slices.append({"whole": False})
-    return {"id": sc["id"], "n": n, "len": len(system), "ints": ints, "iter": it, "times": times, "slices": slices, "ok": r["ok"]}
+    return {"n": n, "len": len(system), "ints": ints, "iter": it, "times": times, "slices": slices}
 
 
 def check(run, replay=None):
@@ -123,15 +147,18 @@ def check(run, replay=None):
     else:
         run.mc("LookupIdx", workers=4)
         scs = scenarios(run.tier, run.seed)
-    obs = core.pool_map(observe, scs)
-    for sc, o in zip(scs, obs):
+    nested = core.pool_map(observe, scs)
+    obs = [o for group in nested for o in group]
+    scs_of = {o["id"]: sc for sc, group in zip(scs, nested) for o in group}
+    for o in obs:
+        sc = scs_of[o["id"]]
         run.evaluations += len(o["ints"]) + len(o["times"]) + len(o["slices"]) + 1
         if o["n"] >= 3:
             run.nontrivial.add((str(sc["method"]), sc["t0"], sc["tf"], str(sc["ops"]), sc["dense"]))
     run.sample({"scenario": scs[0], "obs": {k: (v[:4] if isinstance(v, list) else v) for k, v in obs[0].items()}})
     v = run.judge("GetItemJudge", {"cases": obs}, name="C19_getitem", shards=8, shard_key="cases")
     run.traces += len(obs)
-    byid = {sc["id"]: sc for sc in scs}
+    byid = scs_of
     oby = {o["id"]: o for o in obs}
     for b in v["bad"]:
         sc = byid[b["id"]]
